@@ -52,6 +52,13 @@ UScenario(w) ==
         \o Flat([j \in DOMAIN Q2 |-> IF Q2[j][1] < n
                    THEN <<mk, W("U.remove(" \o ToString(Q2[j][1]) \o ", " \o ToString(Q2[j][2]) \o ")", VBool(TRUE)), W("raw(U.string())", VRaw(Flatten(RemoveChars(cs, Q2[j][1], Q2[j][2]))))>>
                    ELSE <<mk, W("U.remove(" \o ToString(Q2[j][1]) \o ", " \o ToString(Q2[j][2]) \o ")", VBool(FALSE)), W("raw(U.string())", VRaw(bs))>>])
+        \o Flat([j \in DOMAIN Q |-> IF Q[j] <= n
+                   THEN <<mk, Ex("V = utf8(U);"), W("U.insert(" \o ToString(Q[j]) \o ", V)", VInt(n)),
+                          W("raw(U.string())", VRaw(Flatten(SubSeq(cs, 1, Q[j]) \o cs \o SubSeq(cs, Q[j] + 1, n)))), W("raw(V.string())", VRaw(bs)),
+                          mk, W("U.insert(" \o ToString(Q[j]) \o ", U)", VInt(n)),                          \* the receiver itself
+                          W("raw(U.string())", VRaw(Flatten(SubSeq(cs, 1, Q[j]) \o cs \o SubSeq(cs, Q[j] + 1, n)))), W("U.count()", VInt(2 * n)), W("U.rawsize()", VInt(2 * Len(bs)))>>
+                   ELSE <<>>])
+        \o <<mk, Ex("U.concat(U);"), W("raw(U.string())", VRaw(bs \o bs)), W("U.count()", VInt(2 * n))>>
         \o <<mk, Ex("V = utf8(U);"), Ex("V.append(65);"), W("raw(U.string())", VRaw(bs)), W("raw(V.string())", VRaw(bs \o <<65>>)), Ex("U.concat(V);"), W("raw(U.string())", VRaw(bs \o bs \o <<65>>))>>]
 \* ill-formed texts: any defined result or BLOC error, never an out-of-bounds access
 UBadScenario(w) ==
@@ -121,6 +128,8 @@ QV == << [x |-> "0", v |-> VInt(0)], [x |-> "(-1)", v |-> VInt(-1)], [x |-> "123
 QScenario(a, b) ==
   LET row == <<QV[a], QV[b], QV[3], QV[7], QV[9]>>
       tupx == "tup(" \o row[1].x \o ", " \o row[2].x \o ", " \o row[3].x \o ", " \o row[4].x \o ", " \o row[5].x \o ")"
+      row2 == <<QV[b], QV[a], QV[12], QV[3], QV[11]>>
+      tupy == "tup(" \o row2[1].x \o ", " \o row2[2].x \o ", " \o row2[3].x \o ", " \o row2[4].x \o ", " \o row2[5].x \o ")"
       chk(i) == IF row[i].v.t = "null" THEN W("isnull(R.at(0)@" \o ToString(i) \o ")", VBool(TRUE))
                 ELSE IF row[i].v.t = "raw" /\ row[i].v.b = <<>> THEN W("R.at(0)@" \o ToString(i), [t |-> "rawornull", b |-> <<>>])
                 ELSE W("R.at(0)@" \o ToString(i), row[i].v)
@@ -131,8 +140,16 @@ QScenario(a, b) ==
            Ex("R = DB.query(\"select a, b, c, d, e from t\");"), W("R.count()", VInt(1)), chk(1), chk(2), chk(3), chk(4), chk(5),
            \* the same through a prepared statement and a bound query
            Ex("R2 = DB.query(\"select count(*) from t where c = :1 and d = :2\", tup(" \o row[3].x \o ", " \o row[4].x \o "));"), W("R2.at(0)@1", VInt(1)),
+           \* a prepared statement re-used: bound and executed twice; the second row swaps the values and has a null
+           \* where the first row had a value
+           W("DB.prepare(\"insert into t values (:1, :2, :3, :4, :5)\")", VBool(TRUE)),
+           W("DB.bind(" \o tupx \o ")", VBool(TRUE)), W("DB.execute()", VBool(TRUE)),
+           W("DB.bind(" \o tupy \o ")", VBool(TRUE)), W("DB.execute()", VBool(TRUE)),
+           W("DB.finalize()", VBool(TRUE)),
            W("DB.close()", VBool(TRUE)),
-           [op |-> "sqlitedump", ctx |-> 0, path |-> "@TMP@/v.db", sql |-> "select a, b, c, d, e from t", want |-> << <<row[1].v, row[2].v, row[3].v, row[4].v, row[5].v>> >>] >>]
+           [op |-> "sqlitedump", ctx |-> 0, path |-> "@TMP@/v.db", sql |-> "select a, b, c, d, e from t order by rowid",
+            want |-> << <<row[1].v, row[2].v, row[3].v, row[4].v, row[5].v>>, <<row[1].v, row[2].v, row[3].v, row[4].v, row[5].v>>,
+                        <<row2[1].v, row2[2].v, row2[3].v, row2[4].v, row2[5].v>> >>] >>]
 
 VARIABLE p
 Init == p \in {[k |-> "Q", a |-> a, b |-> b] : a \in DOMAIN QV, b \in DOMAIN QV} \cup {[k |-> "F", h |-> h, m |-> m] : h \in FSeqs(3), m \in {"w+", "wb+"}} \cup {[k |-> "C", r |-> r, f |-> f] : r \in Rows, f \in {"\",\"", "\";\""}} \cup {[k |-> "U", w |-> w] : w \in Words(3, Len(Chars))} \cup {[k |-> "UB", w |-> w] : w \in {x \in Words(2, Len(Chars) + Len(BadChars)) : \E j \in DOMAIN x : x[j] > Len(Chars)}}
